@@ -38,6 +38,13 @@ Definition check_run (c : run_case) : bool :=
   let '(sd, sb, cards, cells, expected) := c in
   res_eqb (run (mkCfg sd sb) cards cells) expected.
 
+(* the same with every cell card (converted or not, with TRCL or not) *)
+Definition run_t_case := (bool * bool * list scard * list tcell * res output)%type.
+
+Definition check_run_t (c : run_t_case) : bool :=
+  let '(sd, sb, cards, tcells, expected) := c in
+  res_eqb (run_t (mkCfg sd sb) cards tcells) expected.
+
 (* case (b): re_name on one string, groups as observed *)
 Definition check_split (c : string * (string * string)) : bool :=
   let (f, n) := split_flags (fst c) in
